@@ -19,6 +19,7 @@ processors, unescape, the serializer and `finishX` on the resulting tree.
 -/
 import MdVerif.Lemmas.RenderXNl
 import MdVerif.Lemmas.RenderXAdm
+import MdVerif.Lemmas.RenderXDef
 
 namespace MdVerif.RenderX
 open Py PipelineX
@@ -180,5 +181,54 @@ example : convertX { admonition := true } {} "!!! note \"\"\n    body".toList =
 
 /-- the same source without the extension is a paragraph and a code block -/
 example : convertX {} {} "!!! note\n    body".toList = .ok "<p>!!! note\n    body</p>".toList := by decide +kernel
+
+/-! ### def_list -/
+
+/-- the source of a definition list: the term lines, then one line `:   definition` per definition -/
+example : defSrc ["term".toList] ["definition".toList] = "term\n:   definition".toList := by decide
+example : defSrc ["term 1".toList, "term 2".toList] ["def 1".toList, "def 2".toList] =
+    "term 1\nterm 2\n:   def 1\n:   def 2".toList := by decide
+
+/-- `txtOut tag ts`: `<tag>t</tag>` and a line feed for every `t` -/
+example : txtOut "dt" ["a".toList, "b c".toList] = "<dt>a</dt>\n<dt>b c</dt>\n".toList := by decide
+
+/-- **def_list, several terms and several definitions.**  Term lines followed by definition lines convert to one
+    `dl` with a `dt` per term and a `dd` per definition, in order — for any number (≥ 1) of plain terms and of plain
+    one-line definitions. -/
+theorem C16_deflist_renders (cfg : Pipeline.Cfg) (hbl : cfg.blockLevel = TreeProc.defaultBlockLevel)
+    (htab : 0 < cfg.tab) (t0 : Str) (tr : List Str) (d : Str) (ds : List Str)
+    (ht : ∀ l ∈ t0 :: tr, PlainLine l) (hd : ∀ l ∈ d :: ds, PlainLine l) :
+    convertX { defList := true } cfg (defSrc (t0 :: tr) (d :: ds)) =
+      .ok ("<dl>\n".toList ++ txtOut "dt" (t0 :: tr) ++ txtOut "dd" (d :: ds) ++ "</dl>".toList) :=
+  convertX_def cfg hbl htab t0 tr d ds (fun l hl => plainLine_facts (ht l hl)) (fun l hl => plainLine_facts (hd l hl))
+
+/-- **def_list, one term and one definition**: `term\n:   definition` ↦
+    `<dl>\n<dt>term</dt>\n<dd>definition</dd>\n</dl>`. -/
+theorem C16_deflist_one (cfg : Pipeline.Cfg) (hbl : cfg.blockLevel = TreeProc.defaultBlockLevel)
+    (htab : 0 < cfg.tab) (term defn : Str) (ht : PlainLine term) (hd : PlainLine defn) :
+    convertX { defList := true } cfg (term ++ "\n:   ".toList ++ defn) =
+      .ok ("<dl>\n<dt>".toList ++ term ++ "</dt>\n<dd>".toList ++ defn ++ "</dd>\n</dl>".toList) := by
+  have := C16_deflist_renders cfg hbl htab term [] defn [] (by simpa using ht) (by simpa using hd)
+  have e : defSrc [term] [defn] = term ++ "\n:   ".toList ++ defn := by
+    simp only [defSrc, List.map_cons, List.map_nil, List.cons_append, List.nil_append, defLine]
+    rw [Block.joinLines_cons_cons]
+    simp only [joinLines, join, String.reduceToList, List.cons_append, List.append_assoc, List.nil_append]
+  rw [e] at this
+  rw [this]
+  simp only [txtOut, String.reduceToList, List.cons_append, List.append_assoc, List.nil_append, List.append_nil]
+
+/-- instances: through the theorem … -/
+example : convertX { defList := true } {} "term 1\nterm 2\n:   def 1\n:   def 2".toList =
+    .ok "<dl>\n<dt>term 1</dt>\n<dt>term 2</dt>\n<dd>def 1</dd>\n<dd>def 2</dd>\n</dl>".toList :=
+  C16_deflist_renders {} rfl (by decide) "term 1".toList ["term 2".toList] "def 1".toList ["def 2".toList]
+    (by decide) (by decide)
+
+/-- … and by evaluation of the model -/
+example : convertX { defList := true } {} "term\n:   definition".toList =
+    .ok "<dl>\n<dt>term</dt>\n<dd>definition</dd>\n</dl>".toList := by decide +kernel
+
+/-- without the extension: a paragraph -/
+example : convertX {} {} "term\n:   definition".toList = .ok "<p>term\n:   definition</p>".toList := by
+  decide +kernel
 
 end MdVerif.RenderX
